@@ -186,3 +186,8 @@ mod tests {
         }
     }
 }
+
+// Verification hook (compiled only by `cargo kani`, which sets `--cfg kani`).
+#[cfg(kani)]
+#[path = "/verif/harness/catch_pgradual.rs"]
+pub(crate) mod verif_harness;
